@@ -117,6 +117,18 @@ def property_checks(inp):
             def q(Rm):
                 return numpy.array([C[i, i] - 2 * Rm[i] @ Con[i] + Rm[i] @ K @ Rm[i] for i in range(2 * non)])
             A(("no other linear map has a smaller residual variance", float(numpy.max((q(R) - q(R + dR)) / numpy.maximum(numpy.diag(C)[:2 * non], 1e-300))), 1e-12 * cond + 1e-13))
+    # the covariance matrix may be handed over in any numeric dtype (integer counts, float32): same reconstructor
+    if rc == 0 and kind != "deficient" and cond < 1e6:
+        Ci = numpy.round(C / numpy.abs(C).max() * 4096).astype(numpy.int64)
+        Ki, Coni = Ci[2 * non:, 2 * non:].astype(float), Ci[:2 * non, 2 * non:].astype(float)
+        ci = numpy.linalg.cond(Ki)
+        if ci < 1e6:
+            Ri = numpy.asarray(sc.create_tomographic_covariance_reconstructor(Ci, non, 0), dtype=float)
+            A(("R K = C_on,off for an integer-typed covariance matrix", float(numpy.abs(Ri @ Ki - Coni).max() / max(numpy.abs(Coni).max(), 1e-300)), 1e-12 * ci + 1e-12))
+            C32 = C.astype(numpy.float32)
+            R32 = numpy.asarray(sc.create_tomographic_covariance_reconstructor(C32, non, 0), dtype=float)
+            K32, Con32 = C32[2 * non:, 2 * non:].astype(float), C32[:2 * non, 2 * non:].astype(float)
+            A(("R K = C_on,off for a float32 covariance matrix", float(numpy.abs(R32 @ K32 - Con32).max() / scale), 1e-5 * cond + 1e-5))
     # duplicated sensor: on-axis slopes are copies of off-axis slopes k..k+2n
     if b >= 2 * non and kind != "deficient" and rc == 0:
         G = npr.normal(size=(b, b + 2))
@@ -144,6 +156,13 @@ def property_checks(inp):
             Rb = sc.create_tomographic_covariance_reconstructor(M, n0, 0)
             Eb = numpy.zeros_like(Rb); Eb[numpy.arange(2 * n0), numpy.arange(2 * n0)] = 1
             A(("duplicated sensor is reproduced end to end through the covariance builder", float(numpy.abs(Rb - Eb).max()), 1e-6 * cb + 1e-6))
+            # ... also when the matrix is built by worker processes (in-process pool honouring only the map contract)
+            with warnings.catch_warnings():
+                warnings.simplefilter("ignore")
+                with scc.Controlled(lambda n: list(range(n))[::-1]):
+                    M2 = numpy.asarray(scc.build(cfg, 2).make_covariance_matrix(), dtype=float)
+            R2 = sc.create_tomographic_covariance_reconstructor(M2, n0, 0)
+            A(("duplicated sensor is reproduced end to end (matrix built with 2 threads)", float(numpy.abs(R2 - Eb).max()), 1e-6 * cb + 1e-6))
     # history on an object: the reconstructor always comes from the CURRENT matrix
     if inp.get("object_history"):
         cfg = inp["object_history"]
